@@ -343,6 +343,7 @@ type analyzer struct {
 	noInline   map[*ssa.Function]bool
 	stack      []*ssa.Function
 	allowRecursion bool // bounded by maxDepth (structural recursion over a finite chain)
+	cellValue  func(*ssa.Alloc) (aval, bool) // current content of a non-escaping local cell of the activation being analysed
 	snapshots  bool                   // returned pointers to fresh allocations carry a snapshot of the pointee (ptrOf)
 	regex      map[*ssa.Global]string // package-level regexps with a constant pattern (load gives "regexp:<pattern>")
 }
@@ -403,6 +404,11 @@ func allocEscapes(al *ssa.Alloc) bool {
 				return true
 			}
 		case *ssa.UnOp, *ssa.DebugRef:
+		case *ssa.MakeClosure:
+			// captured by a closure that only reads the variable
+			if !readOnlyCapture(x, al, 0) {
+				return true
+			}
 		case *ssa.Slice:
 			// arrays: slicing a fresh array is how composite slice literals are built
 			if _, ok := al.Type().(*types.Pointer).Elem().Underlying().(*types.Array); !ok {
@@ -413,6 +419,39 @@ func allocEscapes(al *ssa.Alloc) bool {
 		}
 	}
 	return false
+}
+
+// readOnlyCapture: the closure (and closures nested in it) only loads from the
+// captured variable cell.
+func readOnlyCapture(mc *ssa.MakeClosure, cell ssa.Value, depth int) bool {
+	if depth > 3 {
+		return false
+	}
+	fn, ok := mc.Fn.(*ssa.Function)
+	if !ok {
+		return false
+	}
+	for i, b := range mc.Bindings {
+		if b != cell || i >= len(fn.FreeVars) {
+			continue
+		}
+		fv := fn.FreeVars[i]
+		if fv.Referrers() == nil {
+			continue
+		}
+		for _, ref := range *fv.Referrers() {
+			switch x := ref.(type) {
+			case *ssa.UnOp, *ssa.DebugRef:
+			case *ssa.MakeClosure:
+				if !readOnlyCapture(x, fv, depth+1) {
+					return false
+				}
+			default:
+				return false
+			}
+		}
+	}
+	return true
 }
 
 func (an *analyzer) analyze(fn *ssa.Function, params []aval) *result {
@@ -811,7 +850,18 @@ func (an *analyzer) run(fn *ssa.Function, params []aval, free []aval, depth int)
 				case *ssa.TypeAssert:
 					nv = an.typeAssert(x, get(x.X), res)
 				case *ssa.Call:
+					prevCell := an.cellValue
+					an.cellValue = func(al *ssa.Alloc) (aval, bool) {
+						if escapes(al) {
+							return aval{}, false
+						}
+						if m := mem[al]; m != nil && len(m) == 1 && m[0].k != kBot {
+							return m[0], true
+						}
+						return aval{}, false
+					}
 					nv = an.call(x, get, depth, res)
+					an.cellValue = prevCell
 				case *ssa.Defer:
 					// deferred calls are not followed
 				case *ssa.Go:
@@ -1165,7 +1215,13 @@ func (an *analyzer) call(x *ssa.Call, get func(ssa.Value) aval, depth int, res *
 	}
 	if mc, ok := c.Value.(*ssa.MakeClosure); ok {
 		for _, b := range mc.Bindings {
-			free = append(free, get(b))
+			fv := get(b)
+			if al, ok := b.(*ssa.Alloc); ok && an.cellValue != nil && readOnlyCapture(mc, al, 0) {
+				if cv, ok := an.cellValue(al); ok {
+					fv = aval{k: kNonNil, ptrOf: &cv}
+				}
+			}
+			free = append(free, fv)
 		}
 	}
 	res.calls = append(res.calls, callObs{site: x, callee: sc, name: short(sc), args: args, depth: depth})
@@ -1928,6 +1984,10 @@ func onlyFreshEscapes(al *ssa.Alloc, depth int) bool {
 				return false
 			}
 		case *ssa.UnOp, *ssa.DebugRef, *ssa.Return:
+		case *ssa.MakeClosure:
+			if !readOnlyCapture(x, al, 0) {
+				return false
+			}
 		default:
 			return false
 		}
